@@ -45,59 +45,96 @@ func checkC14(c *core.Ctx, r *core.Report) {
 		c.Field(pkgStructs, "MetricsMeta.OrgId"): true,
 	}
 
-	// victim maps: first argument of the two delete calls
-	victimMaps := map[ssa.Value]string{}
-	for _, ci := range core.CallsIn(doRet) {
-		if core.IsCallTo(ci, delSeg) {
-			victimMaps[ci.Common().Args[0]] = "segmentsToDelete"
-		}
-		if core.IsCallTo(ci, delMet) {
-			victimMaps[ci.Common().Args[1]] = "metricSegmentsToDelete"
-		}
+	// victim maps: first argument of the two delete calls; when the selection lives in a helper that
+	// returns the maps, the maps are the helper's returned values and the insertions are looked for there
+	type victim struct {
+		fn   *ssa.Function
+		m    ssa.Value
+		name string
 	}
-	r.Floor("GUARD", "victim maps passed to the delete functions", len(victimMaps), 2)
-	loops := core.Loops(doRet)
-	nIns := 0
-	for _, b := range doRet.Blocks {
-		for _, in := range b.Instrs {
-			mu, ok := in.(*ssa.MapUpdate)
-			if !ok {
-				continue
+	var victims []victim
+	var resolve func(fn *ssa.Function, v ssa.Value, name string, depth int)
+	resolve = func(fn *ssa.Function, v ssa.Value, name string, depth int) {
+		idx := -1
+		var call *ssa.Call
+		switch x := v.(type) {
+		case *ssa.Extract:
+			if cl, ok := x.Tuple.(*ssa.Call); ok {
+				call, idx = cl, x.Index
 			}
-			mname, isVictim := victimMaps[mu.Map]
-			if !isVictim {
-				continue
-			}
-			nIns++
-			construct := fmt.Sprintf("%s:insert(%s)-guarded-by-latest<=horizon", shortFn(doRet), mname)
-			verdict, detail := retentionGuard(c, b, latestFields, earliestFields, horizonFn)
-			if verdict {
-				r.OK("GUARD", construct, c.Pos(mu.Pos()), detail)
-			} else {
-				r.Violation("GUARD", construct, c.Pos(mu.Pos()), detail)
-			}
-			// the selection loop examines every entry
-			l := core.InnermostLoop(loops, b)
-			k := fmt.Sprintf("%s:selection-loop(%s)-examines-every-entry", shortFn(doRet), mname)
-			if l == nil {
-				r.Undecided("GUARD", k, c.Pos(mu.Pos()), "the insertion is not inside a loop")
-			} else {
-				bad := false
-				for _, e := range l.ExitEdges() {
-					if e[0] != l.Header {
-						bad = true
-						at := mu.Pos()
-						for _, ei := range e[0].Instrs {
-							if ei.Pos().IsValid() {
-								at = ei.Pos()
-							}
-						}
-						r.Violation("GUARD", k, c.Pos(at), "the loop that selects expired segments can be left from inside its body (break/return): entries after that point are never examined, so expired segments survive the pass")
-						break
+		case *ssa.Call:
+			call, idx = x, 0
+		}
+		if call != nil && depth < 3 {
+			if h := call.Call.StaticCallee(); h != nil && h.Blocks != nil && core.IsRepoPkg(core.FnPkgPath(h)) {
+				for _, ret := range core.Returns(h) {
+					if idx < len(ret.Results) {
+						resolve(h, ret.Results[idx], name, depth+1)
 					}
 				}
-				if !bad {
-					r.OK("GUARD", k, c.Pos(mu.Pos()), "the only exit of the selection loop is exhaustion of the candidate list")
+				return
+			}
+		}
+		for _, k := range victims {
+			if k.fn == fn && k.m == v {
+				return
+			}
+		}
+		victims = append(victims, victim{fn, v, name})
+	}
+	nVictimArgs := 0
+	for _, ci := range core.CallsIn(doRet) {
+		if core.IsCallTo(ci, delSeg) {
+			nVictimArgs++
+			resolve(doRet, ci.Common().Args[0], "segmentsToDelete", 0)
+		}
+		if core.IsCallTo(ci, delMet) {
+			nVictimArgs++
+			resolve(doRet, ci.Common().Args[1], "metricSegmentsToDelete", 0)
+		}
+	}
+	r.Floor("GUARD", "victim maps passed to the delete functions", nVictimArgs, 2)
+	nIns := 0
+	for _, vic := range victims {
+		loops := core.Loops(vic.fn)
+		mname := vic.name
+		for _, b := range vic.fn.Blocks {
+			for _, in := range b.Instrs {
+				mu, ok := in.(*ssa.MapUpdate)
+				if !ok || mu.Map != vic.m {
+					continue
+				}
+				nIns++
+				construct := fmt.Sprintf("%s:insert(%s)-guarded-by-latest<=horizon", shortFn(vic.fn), mname)
+				verdict, detail := retentionGuard(c, b, latestFields, earliestFields, horizonFn)
+				if verdict {
+					r.OK("GUARD", construct, c.Pos(mu.Pos()), detail)
+				} else {
+					r.Violation("GUARD", construct, c.Pos(mu.Pos()), detail)
+				}
+				// the selection loop examines every entry
+				l := core.InnermostLoop(loops, b)
+				k := fmt.Sprintf("%s:selection-loop(%s)-examines-every-entry", shortFn(vic.fn), mname)
+				if l == nil {
+					r.Undecided("GUARD", k, c.Pos(mu.Pos()), "the insertion is not inside a loop")
+				} else {
+					bad := false
+					for _, e := range l.ExitEdges() {
+						if e[0] != l.Header {
+							bad = true
+							at := mu.Pos()
+							for _, ei := range e[0].Instrs {
+								if ei.Pos().IsValid() {
+									at = ei.Pos()
+								}
+							}
+							r.Violation("GUARD", k, c.Pos(at), "the loop that selects expired segments can be left from inside its body (break/return): entries after that point are never examined, so expired segments survive the pass")
+							break
+						}
+					}
+					if !bad {
+						r.OK("GUARD", k, c.Pos(mu.Pos()), "the only exit of the selection loop is exhaustion of the candidate list")
+					}
 				}
 			}
 		}
@@ -521,7 +558,7 @@ func retentionGuard(c *core.Ctx, b *ssa.BasicBlock, latest, earliest map[*types.
 		default:
 			continue
 		}
-		so, bg := c.Origins(small, 0), c.Origins(big, 0)
+		so, bg := c.Origins(small, 0), c.Origins(big, 2) // the horizon may arrive as a parameter of a selection helper
 		hasLatest, hasEarliest, hasHorizon := false, false, false
 		for _, o := range so {
 			if o.Kind == "field" {
